@@ -698,3 +698,46 @@ Proof.
   destruct (Nat.eqb (length (many ENCASSERTION doc)) 1); cbn [negb orb]; [reflexivity|].
   reflexivity.
 Qed.
+
+(* ================================================================== response.AuthnResponse.parse_assertion: the test of 6a3bb24f *)
+(* the `if` statement added by 6a3bb24f, cut out of the live text by harness/c02.py slice_one.  The instance as far as the
+   statement reads it: self.context, self.assertions (the processed assertions; only the length counts),
+   self.response.signature *)
+Definition enc_self_one (ctx : string) (fed : list tree) (sg : option tree) : pyval :=
+  PObj [("__class__", PStr "AuthnResponse");
+        ("response", PObj [("__class__", PStr "Response"); ("signature", enc_sig_opt sg)]);
+        ("context", PStr ctx); ("assertions", PList (map enc_assertion fed))].
+
+Lemma z_nat_gtb_1 n : Z.gtb (Z.of_nat n) 1 = negb (Nat.leb n 1).
+Proof.
+  destruct (Nat.leb_spec n 1) as [H|H]; cbn [negb].
+  - rewrite Z.gtb_ltb. apply Z.ltb_ge. lia.
+  - rewrite Z.gtb_ltb. apply Z.ltb_lt. lia.
+Qed.
+
+Lemma p2_gt_int a b : p2_gt (PInt a) (PInt b) = PBool (Z.gtb a b).
+Proof. reflexivity. Qed.
+
+(* it lets the Response through exactly when Model.one_fed holds (the Response carries a signature, or at most one
+   assertion was processed) and raises InvalidAssertion otherwise; context AuthnQuery: never raises *)
+Theorem src2_one_is_model : forall ctx doc fed,
+  (String.eqb ctx "AuthnQuery" = false ->
+   src2_one (enc_self_one ctx fed (single SIGNATURE doc))
+   = if one_fed as_coded (match single SIGNATURE doc with Some _ => true | None => false end) fed
+     then PNone else PExc "InvalidAssertion")
+  /\ src2_one (enc_self_one "AuthnQuery" fed (single SIGNATURE doc)) = PNone.
+Proof.
+  intros ctx doc fed. split; [|reflexivity].
+  intro Hctx. unfold src2_one.
+  change (p2_attr_x (enc_self_one ctx fed (single SIGNATURE doc)) "context") with (PStr ctx).
+  change (p2_attr_x (enc_self_one ctx fed (single SIGNATURE doc)) "assertions") with (PList (map enc_assertion fed)).
+  change (p2_attr_x (p2_attr_x (enc_self_one ctx fed (single SIGNATURE doc)) "response") "signature")
+    with (enc_sig_opt (single SIGNATURE doc)).
+  rewrite p2_ne_str, Hctx. cbn [negb].
+  change (p2_len (PList (map enc_assertion fed))) with (PInt (Z.of_nat (length (map enc_assertion fed)))).
+  rewrite map_length, p2_gt_int, z_nat_gtb_1.
+  unfold one_fed. cbn [k_one as_coded negb orb].
+  destruct (Nat.leb (length fed) 1); cbn [negb].
+  - rewrite orb_true_r. reflexivity.
+  - rewrite orb_false_r. destruct (single SIGNATURE doc) as [sg|]; reflexivity.
+Qed.
